@@ -603,13 +603,11 @@ def _cmp(c0, c1, c2, ncols, perm, ix):
     names, rows, al = build(cols, perm)
     indices = index_choices(ncols)[ix]
     sel = selected_columns(indices, ncols)
-    impl, orc, reached = [], [], False
+    impl, orc = [], []
     for part in range(4):
-        i, w = impl_part(part, al, names, indices)
-        impl.append(i)
+        impl.append(impl_part(part, al, names, indices)[0])
         orc.append(oracle_part(part, rows, sel))
-        reached = reached or (len(w) > 0 and max(w) > 1)
-    return impl, orc, reached
+    return impl, orc, max(n for _, n in orc[0][0]) > 1
 
 
 def _adom(c0, c1, c2, ncols, perm, ix):
@@ -641,7 +639,7 @@ def cmp_all(c0: int, c1: int, c2: int, ncols: int, perm: int, ix: int):
 
 def cmp_all_twin(c0: int, c1: int, c2: int, ncols: int, perm: int, ix: int):
     """
-    (reached = some pattern weight > 1, i.e. a repeated column really was merged)
+    (reached = the body ran to its end on an alignment with a repeated selected column)
 
     pre: _adom(c0, c1, c2, ncols, perm, ix)
     post: not _[2]
